@@ -88,6 +88,30 @@ pub fn mk_ext(width: u8, reserved: u32, spc: u32, slack: u32, ext_flags: u16, na
     vol::cfg_from(name, b.finish(), Some(cands))
 }
 
+/// builder volume with another sector size / reserved top nibble (FAT32) and the lowest end-of-chain value
+pub fn mk_var(width: u8, reserved: u32, spc: u32, bps: u32, nib: u32, name: &str) -> Cfg {
+    let mut s = MkSpec::new(width);
+    s.spc = spc;
+    s.bps = bps;
+    s.nibble = nib;
+    if nib != 0 {
+        s.eoc = s.eoc_low();
+    }
+    s.reserved = reserved;
+    s.tail = 64 * 1024;
+    let mut b = Builder::new(s);
+    let last = b.geo.max_cluster();
+    let first = if width == 32 { 3 } else { 2 };
+    let keep: Vec<u32> = vec![first, first + 1, first + 2, first + 3, first + 4, last - 1, last];
+    b.ballast(&keep);
+    b.set_fsinfo(keep.len() as u32, 0xFFFF_FFFF);
+    let mut cands = keep.clone();
+    if width == 32 {
+        cands.push(2);
+    }
+    vol::cfg_from(name, b.finish(), Some(cands))
+}
+
 pub fn specs(tier: &str) -> Vec<ExpSpec> {
     let th = is_thorough(tier);
     let mut cfgs = Vec::new();
@@ -101,6 +125,13 @@ pub fn specs(tier: &str) -> Vec<ExpSpec> {
     // mirroring enabled with a stale non-zero active-copy number (only meaningful when mirroring is off): the
     // table still starts at copy 0 and every copy is kept up to date
     cfgs.push((mk_ext(32, 32, 1, 0, 0x0001, "b32-res32-mirror-stale-active1-tail"), 512));
+    // FAT16 with slack (the end of the volume is reached within the depth), mirroring off (only the active copy may
+    // be written), sectors of 1024 bytes, reserved FAT32 bits set everywhere + the lowest end-of-chain value
+    cfgs.push((mk(16, 4, 2, 1, "b16-spc2-slack1-tail"), 1024));
+    cfgs.push((mk_ext(32, 32, 1, 0, 0x0081, "b32-nomirror-active1-tail"), 512));
+    cfgs.push((mk_ext(32, 32, 1, 0, 0x0080, "b32-nomirror-active0-tail"), 512));
+    cfgs.push((mk_var(32, 32, 1, 1024, 0, "b32-bps1024-tail"), 1024));
+    cfgs.push((mk_var(32, 32, 1, 512, 0xA, "b32-nibbleA-eoclow-tail"), 512));
     cfgs.push((mk(12, 1, 4, 3, "b12-spc4-slack3-tail"), 2048));
     cfgs.push((mk(32, 32, 8, 7, "b32-spc8-slack7-tail"), 4096));
     let mut v = Vec::new();
